@@ -79,8 +79,10 @@ let fl (v : z) : float = Int64.float_of_bits (bits_of_z v)
 let zf (f : float) : z = z_of_bits (Int64.bits_of_float f)
 let bin op a b = zf (op (fl a) (fl b))
 
-let rust_max a b = if Float.is_nan a then b else if Float.is_nan b then a else if a > b then a else if b > a then b else if Float.sign_bit a then b else a
-let rust_min a b = if Float.is_nan a then b else if Float.is_nan b then a else if a < b then a else if b < a then b else if Float.sign_bit a then a else b
+(* f64::max / f64::min: a NaN operand is ignored; for equal operands (signed zeros) the
+   result is unspecified by Rust and the generators avoid it *)
+let rust_max a b = if Float.is_nan a then b else if Float.is_nan b then a else if b > a then b else a
+let rust_min a b = if Float.is_nan a then b else if Float.is_nan b then a else if b < a then b else a
 
 let to_i64_sat (f : float) : int64 =
   if Float.is_nan f then 0L
